@@ -180,7 +180,9 @@ class Lexer:
             (TOKEN_BARE_PROPERTY, self.key_pattern),
             (TOKEN_LPAREN, r"\("),
             (TOKEN_RPAREN, r"\)"),
-            (TOKEN_SKIP, r"[ \n\t\r\.]+"),
+            # A dot is skipped on its own, so that blank space followed by `..` or
+            # `.name` is lexed like `..` or `.name` without the blank space.
+            (TOKEN_SKIP, r"[ \n\t\r]+|\."),
             (TOKEN_ILLEGAL, r"."),
         ]
 
